@@ -166,7 +166,20 @@ int main(int argc, char** argv)
                     one(D, { t, "x" }, env);
                     one(D, { "--", t }, env);
                 }
+            // the same stress tokens through the other entry point (user_input's checking constructor + parse(vector))
+            for (auto& t : stress)
+                for (auto av : { std::vector<std::string>{ t }, std::vector<std::string>{ t, "x" }, std::vector<std::string>{ "--", t } })
+                {
+                    long idx = ctx.next;
+                    ctx.each([&] { return chk.describe_vector_entry(D, av, {}); }, [&](mc::Report& rep) { chk.run_vector_entry(D, av, {}, rep, idx); });
+                }
         }
+        // (1c) every vector of <= 2 tokens through parse(std::vector<user_input>)
+        for (auto& D : decls)
+            for_all_vectors(alpha, 2, ctx, [&](const std::vector<std::string>& av) {
+                long idx = ctx.next;
+                ctx.each([&] { return chk.describe_vector_entry(D, av, {}); }, [&](mc::Report& rep) { chk.run_vector_entry(D, av, {}, rep, idx); });
+            });
         // (1b) stress: very long argument vectors (every one has a definite reference verdict)
         for (auto& D : decls)
         {
